@@ -645,6 +645,8 @@ func (s *S3Proxy) UploadPartCopy(ctx context.Context, input *s3.UploadPartCopyIn
 		ChecksumCRC64NVME: output.CopyPartResult.ChecksumCRC64NVME,
 		ChecksumSHA1:      output.CopyPartResult.ChecksumSHA1,
 		ChecksumSHA256:    output.CopyPartResult.ChecksumSHA256,
+
+		CopySourceVersionId: backend.GetStringFromPtr(output.CopySourceVersionId),
 	}, nil
 }
 
@@ -799,6 +801,7 @@ func (s *S3Proxy) PutObject(ctx context.Context, input s3response.PutObjectInput
 		ChecksumCRC64NVME: output.ChecksumCRC64NVME,
 		ChecksumSHA1:      output.ChecksumSHA1,
 		ChecksumSHA256:    output.ChecksumSHA256,
+		ChecksumType:      output.ChecksumType,
 	}, nil
 }
 
@@ -1163,6 +1166,7 @@ func (s *S3Proxy) ListObjects(ctx context.Context, input *s3.ListObjectsInput) (
 		Name:           out.Name,
 		NextMarker:     out.NextMarker,
 		Prefix:         out.Prefix,
+		EncodingType:   out.EncodingType,
 	}, nil
 }
 
@@ -1201,6 +1205,8 @@ func (s *S3Proxy) ListObjectsV2(ctx context.Context, input *s3.ListObjectsV2Inpu
 		NextContinuationToken: out.NextContinuationToken,
 		Prefix:                out.Prefix,
 		KeyCount:              out.KeyCount,
+		StartAfter:            out.StartAfter,
+		EncodingType:          out.EncodingType,
 	}, nil
 }
 
